@@ -94,18 +94,52 @@ fn new_ippt(flags: u16, primary: &Option<PrimaryBlock>, sh: &Option<SecurityBloc
     }
     b.build()
 }
+/// The other public ways to the same object: builder obtained through Default, target contents preset on the builder (create()
+/// computes them from the target and must not keep what was there), a clone of the built object, and - when nothing but the
+/// defaults is asked for - IntegrityProtectedPlaintext::new() / default().  RFC 9173 3.7 fixes the plaintext by (scope flags,
+/// primary block, target, security header) alone, so every one of them must give the plaintext of the plain builder path.
+#[inline(never)]
+fn fill_ippt(mut b: IpptBuilder, flags: u16, primary: &Option<PrimaryBlock>, sh: &Option<SecurityBlockHeader>) -> IpptBuilder {
+    b = b.scope_flags(flags);
+    if let Some(p) = primary {
+        b = b.primary_block(p.clone());
+    }
+    if let Some(h) = sh {
+        b = b.security_header(*h);
+    }
+    b
+}
+fn alt_ippts(flags: u16, primary: &Option<PrimaryBlock>, sh: &Option<SecurityBlockHeader>) -> Vec<bp7::security::IntegrityProtectedPlaintext> {
+    let mut v = Vec::new();
+    v.push(fill_ippt(IpptBuilder::default(), flags, primary, sh).build());
+    v.push(fill_ippt(IpptBuilder::new(), flags, primary, sh).security_target_contents(vec![0x42, 0x01, 0x02]).build());
+    v.push(fill_ippt(IpptBuilder::new().security_target_contents(b"stale".to_vec()), flags, primary, sh).build());
+    let orig = new_ippt(flags, primary, sh);
+    v.push(orig.clone());
+    v.push(fill_ippt(IpptBuilder::new(), flags, primary, sh).clone().build());
+    if flags == 7 && primary.is_none() && sh.is_none() {
+        v.push(bp7::security::IntegrityProtectedPlaintext::new());
+        v.push(bp7::security::IntegrityProtectedPlaintext::default());
+    }
+    v
+}
 /// One plaintext from a fresh object.  `create` takes `&mut self`, so the object can be used again: the same call repeated on the
-/// same object must give the same plaintext (an empty vector marks the case where it does not - never a valid IPPT).
+/// same object must give the same plaintext (an empty vector marks the case where it does not - never a valid IPPT); the same holds
+/// for the objects of `alt_ippts`.
 fn make_ippt(flags: u16, primary: &Option<PrimaryBlock>, sh: &Option<SecurityBlockHeader>, target: &CanonicalBlock) -> Vec<u8> {
     let mut ippt = new_ippt(flags, primary, sh);
     let _q = Quiet::new();
     let first = ippt.create(target);
     let second = ippt.create(target);
-    if first == second {
-        first
-    } else {
-        Vec::new()
+    if first != second {
+        return Vec::new();
     }
+    for mut other in alt_ippts(flags, primary, sh) {
+        if other.create(target) != first {
+            return Vec::new();
+        }
+    }
+    first
 }
 /// The plaintexts of several targets from ONE object (the way an application signs a multi-target BIB).
 fn make_ippts(flags: u16, primary: &Option<PrimaryBlock>, sh: &Option<SecurityBlockHeader>, targets: &[&CanonicalBlock]) -> Vec<Vec<u8>> {
@@ -304,6 +338,9 @@ pub fn bib(args: &[&str]) -> String {
         }
         old_ippts.push((*k16, l));
     }
+    let builder_targets = targets.clone();
+    let builder_source = source.clone();
+    let builder_params = params.clone();
     let mut builder = IntegrityBlockBuilder::new()
         .security_targets(targets)
         .security_context_flags(ctx_flags)
@@ -311,10 +348,27 @@ pub fn bib(args: &[&str]) -> String {
     if let Some(p) = params {
         builder = builder.security_context_parameters(p);
     }
+    // the other public ways to the same block: builder through Default, stale results preset on the builder (compute_hmac
+    // replaces the results), a clone taken before signing; BibSecurityContextParameter::default() when the parameters are the defaults
+    let alt_builders = vec![
+        builder.clone().security_results(vec![vec![(9, b"stale".to_vec())]]),
+        {
+            let mut b = IntegrityBlockBuilder::default()
+                .security_targets(builder_targets.clone())
+                .security_context_flags(ctx_flags)
+                .security_source(builder_source.clone());
+            if let Some(p) = &builder_params {
+                b = b.security_context_parameters(if *p == BibSecurityContextParameter::default() { BibSecurityContextParameter::default() } else { p.clone() });
+            }
+            b
+        },
+    ];
     let mut ib = match builder.build() {
         Ok(ib) => ib,
         Err(_) => return "BUILDERR".into(),
     };
+    let mut alts: Vec<IntegrityBlock> = alt_builders.into_iter().filter_map(|b| b.build().ok()).collect();
+    alts.push(ib.clone());
     // earlier signatures on the same block, oldest first
     for (k16, l) in &old_ippts {
         let list: Vec<(u64, &Vec<u8>)> = l.iter().map(|(n, b)| (*n, b)).collect();
@@ -342,6 +396,19 @@ pub fn bib(args: &[&str]) -> String {
         let _q = Quiet::new();
         ib.to_cbor()
     };
+    for mut other in alts {
+        let _q = Quiet::new();
+        for (k16, l) in &old_ippts {
+            let list: Vec<(u64, &Vec<u8>)> = l.iter().map(|(n, b)| (*n, b)).collect();
+            other.compute_hmac(*k16, list);
+        }
+        let list: Vec<(u64, &Vec<u8>)> = ippts.iter().map(|(n, b)| (*n, b)).collect();
+        other.compute_hmac(key16, list);
+        if other.security_results != ib.security_results || other.to_cbor() != asb {
+            drop(_q);
+            return "UNSTABLE another public way of building the same integrity block gives other results".into();
+        }
+    }
     out.push_str(&format!(" ASB {}", show_bytes(&asb)));
     let blk = new_integrity_block(bib_num, BlockControlFlags::from_bits_truncate(bib_flags), asb);
     let blk_bytes = serde_cbor::to_vec(&blk).expect("canonical block encodes");
